@@ -256,6 +256,15 @@ pub fn generate(g: &mut Gen, thorough: bool) {
         g.push(format!("S_C16E\t{}\t{}", crate::wire::escape(def), crate::wire::escape(key)), "oracle-error-names-the-parameter", true);
         g.push(super::op_line("default", &[], &[], def, "tree", "F", ""), "model-error-names-the-parameter", true);
     }
+    // 1e. whole numbers: exactly the value written (also beyond 2^53, where a float would round), or refused
+    for v in [
+        "0", "-12", "7", "9007199254740993", "-9007199254740993", "9223372036854775807", "-9223372036854775808", "9223372036854775808", "1e30", "99999999999999999999", "5.0", "1e3", "1.5",
+        "4611686018427387905", "18446744073709551615", "18446744073709551616", "0x10", "1_000", "", "-0", "12abc",
+    ] {
+        for key in ["integer", "natural"] {
+            g.push(format!("S_C16I\t{key}\t{}", crate::wire::escape(v)), "oracle-whole-numbers-exactly", true);
+        }
+    }
     // 1c. the last of repeated keys wins, whatever the spellings of the occurrences (key=value, bare flag, `=true`)
     {
         let data = super::probe_data(2);
